@@ -310,6 +310,13 @@ class V(object):
         fn = CONSTRAINTS.get((self.version, key)) or CONSTRAINTS.get(("*", key))
         if fn:
             fn(self, o, path)
+        if "granular_markings" in props and isinstance(o.get("granular_markings"), list):
+            # every selector of every granular marking addresses content of THIS object
+            for gi, gm in enumerate(o["granular_markings"]):
+                sels = gm.get("selectors") if isinstance(gm, dict) else None
+                for si, sel in enumerate(sels if isinstance(sels, list) else []):
+                    if isinstance(sel, str) and SELECTOR_RE.match(sel) and not _resolves(o, sel):
+                        self.add("%sgranular_markings[%d].selectors[%d]" % (path + "." if path else "", gi, si), "selector-unresolved", "selector %r addresses nothing in the object" % sel)
         if c["category"] == "extensions" and self.version in ("2.0", "2.1"):
             if not [k for k in o if k != "extension_type"]:
                 self.add(path, "at-least-one", "an extension must carry at least one property")
@@ -321,6 +328,24 @@ class V(object):
         if key is None:
             return self.add(path or "type", "custom-type", "type %r is not part of STIX %s" % (o["type"], self.version))
         self.obj(o, key, path, {"type": o["type"]})
+
+
+SELECTOR_RE = re.compile(r"^([a-z0-9_-]{3,250}(\.(\[\d+\]|[a-z0-9_-]{1,250}))*|id)\Z")
+
+
+def _resolves(v, sel):
+    cur = v
+    for step in sel.split("."):
+        if step.startswith("[") and step.endswith("]"):
+            i = int(step[1:-1])
+            if not isinstance(cur, list) or not (0 <= i < len(cur)):
+                return False
+            cur = cur[i]
+        else:
+            if not isinstance(cur, dict) or step not in cur:
+                return False
+            cur = cur[step]
+    return True
 
 
 def validate(o, version, key=None):
